@@ -205,9 +205,25 @@ def overlap_layer(ctx: Ctx):
             if rs_.violated and rs_.error_trace:
                 behs.append([(a, None, s) for a, s in rs_.error_trace])      # the counterexample schedule itself is executed on the real threads
             files, mod, cfg = tlc.mc_files("MC_SimThreads_sim", "SimThreads", c)
-            sb, r2 = tlc.simulate(mod, cfg, num=ctx.pick(40, 400), depth=120, seed=ctx.seed + 400 + si, extra_files=files, timeout=900)
+            sb, r2 = tlc.simulate(mod, cfg, num=ctx.pick(30, 300), depth=120, seed=ctx.seed + 400 + si, extra_files=files, timeout=900)
             ctx.add_tlc(f"SimThreads {script} -simulate", r2)
             behs += sb
+            # one test per TRANSITION: every edge of the complete graph is executed on the real threads
+            from harness import graphs
+            nodes, edges, inits, r3 = tlc.dump_graph(mod, cfg, extra_files=files, workers=1, timeout=900)
+            edges = [e for e in edges if e[0] != e[2]]       # PlusCal's Terminating disjunct stutters at the final state
+            ctx.add_tlc(f"SimThreads {script} graph for edge cover", r3)
+            paths, ncov = graphs.edge_cover(nodes, edges, inits)
+            if ncov != len(edges):
+                raise tlc.MachineryError("edge cover incomplete")
+            cap = ctx.pick(250, 100000)
+            ctx.notes.setdefault("thread_edge_cover", {})[str(script) + str(stoppers) + str(faulty)] = {"states": len(nodes), "edges": len(edges), "paths": len(paths),
+                                                                                                 "paths_executed": min(len(paths), cap)}
+            if len(paths) > cap:
+                step = len(paths) / cap
+                paths = [paths[int(k * step)] for k in range(cap)]
+            for p in paths:
+                behs.append([("Init", None, nodes[inits[0]])] + [(edges[k][1], None, nodes[edges[k][2]]) for k in p])
             for bi, beh in enumerate(behs):
                 status = replay_behaviour(ctx, beh, script, nev, faulty, f"scenario {script} events={nev} faulty={faulty} stoppers={stoppers} behaviour {bi}", stoppers)
                 nbeh += 1
